@@ -1,2 +1,132 @@
-import Tftp.Model.Sender
-import Tftp.Model.Receiver
+import Tftp.Lemmas.SenderStep
+import Tftp.Model.Reassemble
+import Tftp.Props.C11
+/-!
+# C01 — Download fidelity
+
+`sRun c f chk evs` is the whole observable behaviour of `Worker::send_file` on file `f` for the
+receive history `evs` (every list of ACK numbers — also bogus ones —, ERRORs, stray packets, failed
+receives and elapsed times), with (`chk = true`) or without the OACK handshake.
+-/
+namespace Tftp
+
+/-- Every datagram the sender ever emits — for every file, block size ≥ 1, window size ≤ 65535,
+repeat count and receive history — is DATA `(k mod 65536, bytes [(k-1)·b, k·b) of the file)` for
+some `1 ≤ k ≤ N` (or the one ERROR 4 of the handshake). -/
+theorem c01_data_is_slice (c : SCfg) (hb : 0 < c.b) (hw : c.w < 65536) (f : Bytes) (chk : Bool)
+    (evs : List (SEv × Nat)) :
+    ∀ g ∈ (sRun c f chk evs).1, ∀ p ∈ g, GoodPkt c f p :=
+  (run_good hb hw f chk evs).2
+
+/-- `blk k` is literally the file bytes `[(k-1)·b, k·b)` -/
+theorem c01_blk_is_file_range (b : Nat) (f : Bytes) (k : Nat) :
+    blk b f k = (f.drop ((k - 1) * b)).take b := rfl
+
+/-- the last block of the transfer is the first one shorter than `blksize`
+(empty when the size is an exact multiple); nothing beyond it is ever sent (`k ≤ N` above) -/
+theorem c01_last_is_first_short (b : Nat) (hb : 0 < b) (f : Bytes) (k : Nat) (hk1 : 1 ≤ k)
+    (hk : k ≤ nblocks b f) : (blk b f k).length < b ↔ k = nblocks b f :=
+  blk_length_lt_iff b hb f k hk1 hk
+
+theorem c01_exact_multiple_ends_empty (b : Nat) (hb : 0 < b) (f : Bytes) (h : f.length % b = 0) :
+    blk b f (nblocks b f) = [] := by
+  unfold blk nblocks slice
+  have : (f.length / b + 1 - 1) * b = f.length := by
+    have := Nat.div_add_mod f.length b
+    rw [Nat.mul_comm]; simp; omega
+  rw [this]
+  simp
+
+/-- on the wire: opcode 3, block number big-endian, then exactly the payload -/
+theorem c01_wire_layout (n : Nat) (d : Bytes) :
+    encode (.data n d) = [0, 3, UInt8.ofNat (n / 256), UInt8.ofNat (n % 256)] ++ d :=
+  c11_layout_data n d
+
+/-! ### reassembly: any loss, duplication and reordering of the emitted datagrams -/
+
+structure RxInv (b : Nat) (f : Bytes) (r : RxClient) : Prop where
+  pos : 1 ≤ r.next
+  acc_eq : r.acc = f.take ((r.next - 1) * b)
+  done_all : r.done = true → r.next - 1 = nblocks b f
+  open_lt : r.done = false → r.next - 1 < nblocks b f
+
+theorem rx_step_inv (c : SCfg) (hb : 0 < c.b) (f : Bytes) (hN : nblocks c.b f ≤ 65535) (r : RxClient)
+    (p : Packet) (hp : GoodPkt c f p) (h : RxInv c.b f r) : RxInv c.b f (RxClient.step c.b r p) := by
+  rcases hp with ⟨k, hk1, hkN, rfl⟩ | rfl
+  · unfold RxClient.step
+    simp only
+    split
+    · exact h
+    · rename_i hdone
+      have hd : r.done = false := by simpa using hdone
+      have hlt := h.open_lt hd
+      have hpos := h.pos
+      split
+      · rename_i heq
+        have hk : r.next = k := by
+          have h1 : k % 65536 = k := Nat.mod_eq_of_lt (by omega)
+          have h2 : r.next % 65536 = r.next := Nat.mod_eq_of_lt (by omega)
+          omega
+        have hshort := blk_length_lt_iff c.b hb f k hk1 hkN
+        refine ⟨by simp, ?_, ?_, ?_⟩
+        · simp only [Nat.add_sub_cancel]
+          rw [h.acc_eq, hk]
+          have := take_succ_block c.b f (k - 1)
+          unfold blk
+          rw [this]
+          congr 2; omega
+        · intro hdn
+          simp only [decide_eq_true_eq] at hdn
+          simp only [Nat.add_sub_cancel]
+          rw [hk]
+          exact hshort.mp hdn
+        · intro hdn
+          simp only [decide_eq_false_iff_not] at hdn
+          simp only [Nat.add_sub_cancel]
+          rw [hk]
+          have : k ≠ nblocks c.b f := fun he => hdn (hshort.mpr he)
+          omega
+      · exact h
+  · exact h
+
+/-- **Reassembly (transfers of at most 65535 blocks).** Take the datagrams the sender emitted under
+any receive history, apply any loss, duplication and reordering (`ps` is *any* list drawn from
+them): a client that reassembles in-order blocks holds a prefix of the file made of whole blocks,
+and when it considers the copy complete the copy is byte-identical. Never a corrupted one. -/
+theorem c01_reassembly_small (c : SCfg) (hb : 0 < c.b) (hw : c.w < 65536) (f : Bytes) (chk : Bool)
+    (evs : List (SEv × Nat)) (hN : nblocks c.b f ≤ 65535) (ps : List Packet)
+    (hsub : ∀ p ∈ ps, ∃ g ∈ (sRun c f chk evs).1, p ∈ g) :
+    (reassemble c.b ps).acc = f.take (((reassemble c.b ps).next - 1) * c.b) ∧
+    ((reassemble c.b ps).done = true → (reassemble c.b ps).acc = f) := by
+  have hgood : ∀ p ∈ ps, GoodPkt c f p := by
+    intro p hp
+    obtain ⟨g, hg, hpg⟩ := hsub p hp
+    exact c01_data_is_slice c hb hw f chk evs g hg p hpg
+  have key : ∀ (ps : List Packet) (r : RxClient), (∀ p ∈ ps, GoodPkt c f p) → RxInv c.b f r →
+      RxInv c.b f (ps.foldl (RxClient.step c.b) r) := by
+    intro ps
+    induction ps with
+    | nil => intro r _ h; exact h
+    | cons p ps ih =>
+      intro r hg h
+      simp only [List.foldl_cons]
+      exact ih _ (fun q hq => hg q (by simp [hq])) (rx_step_inv c hb f hN r p (hg p (by simp)) h)
+  have h0 : RxInv c.b f RxClient.init := by
+    refine ⟨by simp [RxClient.init], by simp [RxClient.init], by simp [RxClient.init], ?_⟩
+    intro _; simp [RxClient.init, nblocks]
+  have hinv : RxInv c.b f (reassemble c.b ps) := key ps _ hgood h0
+  refine ⟨hinv.acc_eq, ?_⟩
+  intro hd
+  rw [hinv.acc_eq, hinv.done_all hd]
+  apply List.take_of_length_le
+  unfold nblocks
+  have := Nat.div_add_mod f.length c.b
+  have := Nat.mod_lt f.length hb
+  rw [Nat.add_mul, Nat.mul_comm]
+  omega
+
+/-! non-vacuity: a concrete run -/
+example : (sRun { b := 2, w := 2, timeout := 5000, rep := 1 } [1, 2, 3] false [(.ack 1, 0), (.ack 2, 0)]).1 =
+    [[.data 1 [1, 2], .data 2 [3]], [.data 2 [3]], []] := by decide
+
+end Tftp
